@@ -21,14 +21,14 @@ import (
 
 // Op is one call of a public entry point.
 type Op struct {
-	Kind  string `json:"kind"` // compile | validate | validate_cfg | vcompiled | vcompiled_cfg | generate
-	P     int    `json:"p"`    // profile index in the corpus
-	D     int    `json:"d"`    // data index within the profile's data list (-1: none)
+	Kind  string `json:"kind"`            // compile | validate | validate_cfg | vcompiled | vcompiled_cfg | generate
+	P     int    `json:"p"`               // profile index in the corpus
+	D     int    `json:"d"`               // data index within the profile's data list (-1: none)
 	Fault string `json:"fault,omitempty"` // fault operator applied to the data text ("" = none)
-	H     int    `json:"h"`    // handle slot (compile writes it, vcompiled* read it)
-	T     int64  `json:"t"`    // instant of this call (unix seconds)
-	RC    int    `json:"rc"`   // report configuration variant
-	Chan  bool   `json:"chan,omitempty"` // attach an event channel to this call
+	H     int    `json:"h"`               // handle slot (compile writes it, vcompiled* read it)
+	T     int64  `json:"t"`               // instant of this call (unix seconds)
+	RC    int    `json:"rc"`              // report configuration variant
+	Chan  bool   `json:"chan,omitempty"`  // attach an event channel to this call
 }
 
 // Res is the observable outcome of an op.
